@@ -840,8 +840,10 @@ class Element(object):
             'ESCAPE' : '\\'}
 
         """
-        if self.parent is not None:
-            return self.parent.encoding_chars
+        # (an element that is attached for traversal only belongs to the tree it was reached from)
+        parent = self.parent if self.parent is not None else self.traversal_parent
+        if parent is not None:
+            return parent.encoding_chars
         return get_default_encoding_chars(self.version)
 
     def _find_structure(self, reference=None):
